@@ -77,7 +77,7 @@ func VerifNewTicker(period time.Duration, fuzz float64) VerifTicker {
 	return newTicker(period, fuzz)
 }
 
-func VerifListResourceVersion(obj runtime.Object) (string, error) { return listResourceVersion(obj) }
+func VerifListResourceVersion(obj runtime.Object) (string, error)  { return listResourceVersion(obj) }
 func VerifExtractList(obj runtime.Object) ([]metav1.Object, error) { return extractList(obj) }
 
 const (
